@@ -513,3 +513,14 @@ Proof.
               o_pd := 2%positive; o_price := 50; o_fees := []; o_partial := true |} ].
   eexists. split; [vm_compute; reflexivity|]. vm_compute. discriminate.
 Qed.
+
+(** [build_transfers], as stated in Properties/C01.v. *)
+Lemma build_transfers_reported asks bids lk s :
+  build asks bids lk = Ok s -> NoDup (map o_id (asks ++ bids)) ->
+  (forall x d, transfers_net (s_transfers s) x d = sumz (fun f => fill_move f x d) (fills_of s)) /\
+  (Forall (fun o => sorted (o_fees o)) (asks ++ bids) ->
+   forall x d, idx_at (s_fee_inputs s) x d = sumz (fun f => fill_fee f x d) (fills_of s)).
+Proof.
+  intros H Hnd. destruct (build_transfers _ _ _ _ H Hnd) as (_ & _ & Hn & Hf). split; [exact Hn|].
+  intros Hs. apply (Hf Hs).
+Qed.
